@@ -16,11 +16,21 @@ if [ $applies = yes ]; then git checkout -q -- .; git apply $dest/patch.diff; fi
 suite="n/a"; demo_with="n/a"; demo_without="n/a"
 if [ $applies = yes ]; then
   if cargo test --offline $feats >/tmp/confirm_suite.log 2>&1; then suite=pass; else suite=fail; fi
+  appendto=$(head -1 $dest/demo.rs | sed -n 's#^// APPEND-TO: *##p')
+  if [ -n "$appendto" ]; then
+    cat $dest/demo.rs >> $appendto
+    if cargo test --offline $feats --lib seeded_demo >/tmp/confirm_demo1.log 2>&1; then demo_with=pass; else demo_with=fail; fi
+    git checkout -q -- .
+    cat $dest/demo.rs >> $appendto
+    if cargo test --offline $feats --lib seeded_demo >/tmp/confirm_demo2.log 2>&1; then demo_without=pass; else demo_without=fail; fi
+    git checkout -q -- .
+  else
   cp $dest/demo.rs tests/zz_seed_demo.rs
   if cargo test --offline $feats --test zz_seed_demo >/tmp/confirm_demo1.log 2>&1; then demo_with=pass; else demo_with=fail; fi
   git checkout -q -- . 
   if cargo test --offline $feats --test zz_seed_demo >/tmp/confirm_demo2.log 2>&1; then demo_without=pass; else demo_without=fail; fi
   rm -f tests/zz_seed_demo.rs
+  fi
 fi
 python3 - "$dest" "$prop" "$applies" "$suite" "$demo_with" "$demo_without" <<'PY'
 import json,sys,os
